@@ -157,6 +157,37 @@ pub fn run_generic(ctx: &mut Ctx, id: &'static str, methods: &'static [SolveMeth
                 return;
             }
         };
+        // concurrent callers: the same solve issued from three user threads at once on the one
+        // shared Game value (no hooks installed: the event log is process-global) must return, in
+        // every caller, exactly the bits of the sequential single-threaded run
+        if method == SolveMethod::Full && idx % 16 == 5 && prep.flat.nodes.len() <= 300 {
+            let outs: Vec<Outcome> = std::thread::scope(|sc| {
+                let hs: Vec<_> = (0..3).map(|_| sc.spawn(|| solve::run(&prep, &base_cfg, None))).collect();
+                hs.into_iter().map(|h| h.join().unwrap_or_else(|_| Outcome::Panic("caller thread died".into()))).collect()
+            });
+            ctx.count("concurrent-caller-groups(3 user threads, one Game)", 1);
+            for o in outs {
+                match o {
+                    Outcome::Ok(o) => {
+                        let same = o.dense == base.dense && o.bounds[0].to_bits() == base.bounds[0].to_bits() && o.bounds[1].to_bits() == base.bounds[1].to_bits();
+                        if !same {
+                            ctx.violation(
+                                idx,
+                                &format!("{}:concurrent-callers-differ-from-sequential", id),
+                                &format!("{} called from three user threads at once on one Game: a caller got a result that is not bit-identical to the sequential run (bounds {:?} vs {:?}) on {}", base_cfg.describe(), o.bounds, base.bounds, desc),
+                                json!({"game": tree.to_json(), "cfg": base_cfg.describe(), "desc": desc}),
+                            );
+                            return;
+                        }
+                    }
+                    Outcome::Panic(msg) => {
+                        ctx.violation(idx, &format!("{}:panic:concurrent-callers", id), &format!("{} panicked when called from three user threads at once: {}", base_cfg.describe(), msg), json!({"game": tree.to_json(), "cfg": base_cfg.describe()}));
+                        return;
+                    }
+                    Outcome::Err(_) => ctx.inconclusive("thread-spawn-error"),
+                }
+            }
+        }
         let reps = if quick { 2 } else { 3 };
         for rep in 0..reps {
             let mut threads = if contention { *rng.pick(&[4usize, 8, 8, 16, 16]) } else { *rng.pick(&[2usize, 2, 3, 3, 4, 4, 8, 16, 64]) };
@@ -254,7 +285,7 @@ pub fn run_generic(ctx: &mut Ctx, id: &'static str, methods: &'static [SolveMeth
         ("solve(Sampled|External, ...) under fixed sampling decisions (seeded, forced round-robin, forced rarest outcome)", "seeded/forced sampling makes the draw at (site, infoset, pass) a pure function, so 1- and k-thread runs see the same sampled tree")
     };
     ctx.finish(crate::report::extra(
-        &format!("cases = k-thread runs of {} on G1/G2 games (<=700 nodes): random parameter sets (presets, None, custom tuples), budgets {{1,2,3,4,7,20,100}} (small budgets weighted up), thresholds {{0, random}}, k in {{2,3,4,8,16,64}}, every fourth case a contention workload (wide trees, all moves hidden, shared chance infosets, 4-16 threads, always jittered, incl. jitter while an infoset lock is held), 2-3 repetitions per configuration with fresh jitter seeds (70% of runs with hook-H5 yields/spins/sleeps between critical sections), 16 worker processes at once (oversubscription). Each run is (1) step-checked by O3 including the exactly-once visit monitor and the one-draw-per-infoset-per-pass monitor and (2) compared with the logged 1-thread run of the same configuration within 1e-9; a difference is inconclusive (not a violation) only if a trace passed within 1e-9 relative of a regret-matching discontinuity, or if the stability probe (the 1-thread solve repeated with every payoff perturbed by a relative 1e-14..1e-13) moves the output by at least a thousandth of the difference; the step checker decides those runs regardless. Panics inside the parallel solver (e.g. try_lock on a contended infoset) are violations. distinct = hash(tree, configuration, sampling, node-to-thread assignment); non-trivial = game has a decision infoset. Schedules actually observed are measured: distinct (node,thread,pass) assignments and distinct visit orders.", what),
+        &format!("cases = k-thread runs of {} on G1/G2 games (<=700 nodes): random parameter sets (presets, None, custom tuples), budgets {{1,2,3,4,7,20,100}} (small budgets weighted up), thresholds {{0, random}}, k in {{2,3,4,8,16,64}}, every fourth case a contention workload (wide trees, all moves hidden, shared chance infosets, 4-16 threads, always jittered, incl. jitter while an infoset lock is held), 2-3 repetitions per configuration with fresh jitter seeds (70% of runs with hook-H5 yields/spins/sleeps between critical sections), 16 worker processes at once (oversubscription). Each run is (1) step-checked by O3 including the exactly-once visit monitor and the one-draw-per-infoset-per-pass monitor and (2) compared with the logged 1-thread run of the same configuration within 1e-9; a difference is inconclusive (not a violation) only if a trace passed within 1e-9 relative of a regret-matching discontinuity, or if the stability probe (the 1-thread solve repeated with every payoff perturbed by a relative 1e-14..1e-13) moves the output by at least a thousandth of the difference; the step checker decides those runs regardless. Panics inside the parallel solver (e.g. try_lock on a contended infoset) are violations. For Full, one case in sixteen additionally issues the single-threaded solve from three user threads at once on the one shared Game value (no hooks): every caller must get exactly the bits of the sequential run. distinct = hash(tree, configuration, sampling, node-to-thread assignment); non-trivial = game has a decision infoset. Schedules actually observed are measured: distinct (node,thread,pass) assignments and distinct visit orders.", what),
         &["the schedules explored are those the rayon pool produced under jitter and oversubscription; nothing is claimed about schedules not observed", extra_assume],
     ));
 }
